@@ -277,12 +277,13 @@ def sweeps(tier, rng):
             except Exception as e:
                 bad = "compile/decompile raised %r" % (e,)
             yield (("bytecode", i), bad)
-    def subr_font():
-        """CFF font whose local subroutines mix stem hints with path operators and are followed by hintmasks"""
+    def subr_font(default_w=500, nominal_w=0):
+        """CFF font whose local subroutines mix stem hints with path operators and are followed by hintmasks; hinted glyphs whose
+        advance is exactly nominalWidthX (explicit width argument 0) or exactly defaultWidthX (written explicitly all the same)"""
         from fontTools.fontBuilder import FontBuilder
         from fontTools.cffLib import SubrsIndex
         fb = FontBuilder(1000, isTTF=False)
-        order = [".notdef", "A", "B", "C", "D", "E"]
+        order = [".notdef", "A", "B", "C", "D", "E", "F", "G", "H"]
         fb.setupGlyphOrder(order); fb.setupCharacterMap({65 + i: n_ for i, n_ in enumerate(order[1:])})
         def cs(*program): return T2CharString(program=list(program))
         subrs = SubrsIndex()
@@ -299,8 +300,11 @@ def sweeps(tier, rng):
             "C": cs(640, 2 - bias, "callsubr", "hintmask", b"\xc0", *box, "endchar"),
             "D": cs(0 - bias, "callsubr", 5, 6, "rlineto", "hintmask", b"\x80", *box, "endchar"),
             "E": cs(10, 20, "hstem", 30, 40, "vstem", 7, 8, "rmoveto", 3 - bias, "callsubr", "endchar"),
+            "F": cs(0, 10, 20, "hstem", 30, 40, "vstem", 7, 8, "rmoveto", *box, "endchar"),                      # width = nominalWidthX
+            "G": cs(default_w - nominal_w, 10, 20, "hstem", 7, 8, "rmoveto", *box, "endchar"),                   # width = defaultWidthX, explicit
+            "H": cs(0, 0 - bias, "callsubr", "hintmask", b"\xc0", *box, "endchar"),                             # width = nominal, hints in a subroutine
         }
-        fb.setupCFF("Gen-CFF", {"FullName": "Gen CFF"}, chars, {"defaultWidthX": 500, "nominalWidthX": 0, "Subrs": subrs})
+        fb.setupCFF("Gen-CFF", {"FullName": "Gen CFF"}, chars, {"defaultWidthX": default_w, "nominalWidthX": nominal_w, "Subrs": subrs})
         fb.setupHorizontalMetrics({n_: (500, 0) for n_ in order}); fb.setupHorizontalHeader(ascent=800, descent=-200)
         fb.setupNameTable({"familyName": "G", "styleName": "R"}); fb.setupOS2(); fb.setupPost()
         b = io.BytesIO(); fb.save(b); return b.getvalue()
@@ -309,11 +313,19 @@ def sweeps(tier, rng):
         gs = font.getGlyphSet(); out = {}
         for gid, n_ in enumerate(font.getGlyphOrder()):       # keyed by glyph id: CFF2 carries no glyph names
             pen = RecordingPen(); gs[n_].draw(pen); out[gid] = (G.fill_canon(pen.value), gs[n_].width)
+        if "CFF " in font:
+            # the width a CFF charstring itself declares (defaultWidthX / nominalWidthX arithmetic)
+            from fontTools.pens.basePen import NullPen
+            cs_ = font["CFF "].cff[0].CharStrings
+            for gid, n_ in enumerate(font.getGlyphOrder()):
+                if n_ in cs_:
+                    c = cs_[n_]; c.draw(NullPen()); out[gid] = out[gid] + (c.width,)
         return out
     def run_fonts():
         fonts = [(corpus.rel(p), open(p, "rb").read()) for p in corpus.pick(rng, [q for q in corpus.binaries((".otf",)) if os.path.getsize(q) < 300000], 4 if tier == "quick" else 20 if tier == "search" else 200)]
-        try: fonts.append(("generated-CFF-with-subroutines", subr_font()))
-        except Exception as e: fonts.append(("generated-CFF(build failed: %r)" % (e,), None))
+        for dw, nw in ((500, 0), (500, 600), (620, 560)):
+            try: fonts.append(("generated-CFF-with-subroutines-%d-%d" % (dw, nw), subr_font(dw, nw)))
+            except Exception as e: fonts.append(("generated-CFF(build failed: %r)" % (e,), None))
         for label, data in fonts:
             if data is None: yield ((label, "build"), "could not build the generated CFF font"); continue
             try:
